@@ -1122,8 +1122,18 @@ impl Campaign for C07History {
                                 hist.record_unchanged(t, inc)
                             }
                             2 => {
-                                let snap = if tr.chance(1, 4) { None } else { Some((U256::from(tr.below(1000)) + if near_overflow { U256::MAX - U256::from(2000u64) } else { U256::ZERO }, tr.below(4))) };
-                                effects.lock().insert((t, inc), Eff::Snapshot(snap));
+                                let snap = if tr.chance(1, 4) {
+                                    None
+                                } else if !near_overflow && tr.chance(1, 8) {
+                                    Some((U256::ZERO, 0))
+                                } else {
+                                    Some((U256::from(tr.below(1000)) + if near_overflow { U256::MAX - U256::from(2000u64) } else { U256::ZERO }, tr.below(4)))
+                                };
+                                // a touched account that is empty (no balance, nonce or code) *is* a
+                                // deletion for the finalized-account classification (EIP-161), so the
+                                // model records "absent" for it
+                                let modelled = snap.filter(|(b, n)| !(b.is_zero() && *n == 0));
+                                effects.lock().insert((t, inc), Eff::Snapshot(modelled));
                                 hist.record_snapshot(t, inc, snap.map(|(b, n)| info(b, n)))
                             }
                             _ => {
